@@ -214,6 +214,10 @@ def compile_case_src(c):
             body = "pub fn f() { let _v: AnyVec<%s, %s> = AnyVec::with_capacity_in::<u64>(4, %s); }" % (ts, b, builder_expr(c["backend"]))
         elif m in ("reserve", "reserve_exact", "shrink_to"):
             body = "pub fn f(v: &mut AnyVec<%s, %s>) { v.%s(1); }" % (ts, b, m)
+        elif m in ("t_reserve", "t_reserve_exact", "t_shrink_to"):
+            body = "pub fn f(v: &mut AnyVec<%s, %s>) { v.downcast_mut::<SS>().unwrap().%s(1); }" % (ts, b, m[2:])
+        elif m == "t_shrink_to_fit":
+            body = "pub fn f(v: &mut AnyVec<%s, %s>) { v.downcast_mut::<SS>().unwrap().shrink_to_fit(); }" % (ts, b)
         else:
             body = "pub fn f(v: &mut AnyVec<%s, %s>) { v.%s(); }" % (ts, b, m)
     else:
@@ -475,6 +479,32 @@ def borrow_programs(c):
                                                 "let h = v.pop().unwrap(); let l = h.lazy_clone(); let _ = l.size(); let _x = h.downcast::<u64>(); }"),
         }[p]
         return B_PRELUDE + head + T[0] + "\n", B_PRELUDE + head + T[1] + "\n"
+    if k == "needs_mut":
+        m = c["method"]
+        if c["path"] == "erased":
+            call = {"push": "r.push(AnyValueWrapper::new(5u64));", "insert": "r.insert(0, AnyValueWrapper::new(5u64));", "pop": "let _ = r.pop();",
+                    "remove": "let _ = r.remove(0);", "swap_remove": "let _ = r.swap_remove(0);", "drain": "let _ = r.drain(..);",
+                    "splice": "let _ = r.splice(.., [AnyValueWrapper::new(9u64)]);", "clear": "r.clear();", "get_mut": "let _ = r.get_mut(0);",
+                    "at_mut": "let _ = r.at_mut(0);", "iter_mut": "let _ = r.iter_mut();", "as_bytes_mut": "let _ = r.as_bytes_mut();",
+                    "spare_bytes_mut": "let _ = r.spare_bytes_mut();", "reserve": "r.reserve(1);", "reserve_exact": "r.reserve_exact(1);",
+                    "shrink_to_fit": "r.shrink_to_fit();", "shrink_to": "r.shrink_to(0);", "downcast_mut": "let _ = r.downcast_mut::<u64>();",
+                    "set_len": "unsafe { r.set_len(0); }", "get_unchecked_mut": "let _ = unsafe { r.get_unchecked_mut(0) };",
+                    "downcast_mut_unchecked": "let _ = unsafe { r.downcast_mut_unchecked::<u64>() };",
+                    "push_unchecked": "unsafe { r.push_unchecked(AnyValueWrapper::new(5u64)); }",
+                    "insert_unchecked": "unsafe { r.insert_unchecked(0, AnyValueWrapper::new(5u64)); }"}[m]
+            prog = "pub fn f() { let mut v = mk(); let r = &v; %s }" % call
+            ctl = "pub fn f() { let mut v = mk(); let r = &mut v; %s }" % call
+        else:
+            call = {"push": "t.push(5);", "insert": "t.insert(0, 5);", "pop": "let _ = t.pop();", "remove": "let _ = t.remove(0);",
+                    "swap_remove": "let _ = t.swap_remove(0);", "drain": "let _ = t.drain(..);", "splice": "let _ = t.splice(.., [9u64]);",
+                    "clear": "t.clear();", "get_mut": "let _ = t.get_mut(0);", "at_mut": "let _ = t.at_mut(0);", "iter_mut": "let _ = t.iter_mut();",
+                    "as_mut_slice": "let _ = t.as_mut_slice();", "spare_capacity_mut": "let _ = t.spare_capacity_mut();", "reserve": "t.reserve(1);",
+                    "reserve_exact": "t.reserve_exact(1);", "shrink_to_fit": "t.shrink_to_fit();", "shrink_to": "t.shrink_to(0);",
+                    "set_len": "unsafe { t.set_len(0); }", "get_unchecked_mut": "let _ = unsafe { t.get_unchecked_mut(0) };",
+                    "as_mut_ptr": "let _ = t.as_mut_ptr();"}[m]
+            prog = "pub fn f() { let mut v = mk(); let t = v.downcast_ref::<u64>().unwrap(); %s }" % call
+            ctl = "pub fn f() { let mut v = mk(); let mut t = v.downcast_mut::<u64>().unwrap(); %s }" % call
+        return B_PRELUDE + prog + "\n", B_PRELUDE + ctl + "\n"
     if k == "outlives":
         p = c["method"]
         head = "pub fn f() { let mut v = mk(); "
@@ -489,7 +519,7 @@ def borrow_programs(c):
         return B_PRELUDE + head + T[0] + "\n", B_PRELUDE + head + T[1] + "\n"
     raise ToolError("bad borrow case " + json.dumps(c))
 
-BORROW_CODES = {"E0499", "E0502", "E0505", "E0506", "E0597", "E0382", "E0716", "E0521", "E0515", "E0503", "E0599", "E0713"}
+BORROW_CODES = {"E0596", "E0499", "E0502", "E0505", "E0506", "E0597", "E0382", "E0716", "E0521", "E0515", "E0503", "E0599", "E0713"}
 BORROW_CFG = "INIT Init\nNEXT Next\nINVARIANT EmitInv RuleSanity\nCHECK_DEADLOCK FALSE\n"
 
 # every public method of AnyVec / AnyVecTyped known when the loan table (AnyVecBorrow.tla) and the templates were written: those that
@@ -558,6 +588,8 @@ def describe_borrow(c):
         return "keeps the handles from `%s` and `%s` alive at the same time" % (c["method"], c["stmt"])
     if c["kind"] == "view_reuse":
         return "reuses a borrow obtained by `%s` through a mutable typed view after `%s` through the same view" % (c["method"], c["stmt"])
+    if c["kind"] == "needs_mut":
+        return "calls the mutating method `%s` through a shared %s" % (c["method"], "reference to the vector" if c["path"] == "erased" else "typed view (AnyVecRef)")
     return "does `%s`" % c["method"]
 
 
